@@ -90,6 +90,7 @@ type Contracts struct {
 	SortAliases  map[string]SortAlias
 	Tracks       map[string]string // pkg::(Iface).Method -> ghost set of receivers it was called on
 	Monitors     map[string]*MonitorDecl // pkgpath.Type.field
+	NeverSent    map[string]bool         // pkgpath.Type.field: channel-typed field nobody ever sends on (checked syntactically)
 }
 
 type SortAlias struct {
@@ -104,7 +105,7 @@ type GlobalFact struct {
 var clauseKeywords = map[string]bool{
 	"func": true, "requires": true, "ensures": true, "modifies": true, "preserves": true, "refinedby": true, "monitor": true, "protects": true, "track": true, "before": true, "panics": true, "maypanic": true,
 	"loop": true, "invariant": true, "decreases": true, "spec": true, "lemma": true, "induct": true,
-	"smt": true, "smtlate": true, "closed": true, "fieldinv": true, "inline": true, "sort": true, "global": true, "package": true, "ghost": true, "type": true, "trusted": true, "props": true, "use": true, "hdruse": true, "axiom": true, "pattern": true, "opaque": true,
+	"smt": true, "smtlate": true, "closed": true, "neversent": true, "fieldinv": true, "inline": true, "sort": true, "global": true, "package": true, "ghost": true, "type": true, "trusted": true, "props": true, "use": true, "hdruse": true, "axiom": true, "pattern": true, "opaque": true,
 }
 
 var reFuncHdr = regexp.MustCompile(`^func\s+(.+)$`)
@@ -210,6 +211,9 @@ func (cs *Contracts) loadContractFile(path string, pkg string, goFile bool) erro
 				return fmt.Errorf("%s:%d: sort NAME GoType", path, l.no)
 			}
 			cs.SortAliases[rest[:i]] = SortAlias{rest[:i], pkg, strings.TrimSpace(rest[i:])}
+			curF, curLoop, curL = nil, nil, nil
+		case "neversent":
+			cs.NeverSent[pkg+"."+rest] = true
 			curF, curLoop, curL = nil, nil, nil
 		case "closed":
 			cs.ClosedIfaces[pkg+"."+rest] = true
@@ -544,7 +548,7 @@ func splitTopLevel(s string, sep rune) []string {
 
 func newContracts() *Contracts {
 	return &Contracts{Funcs: map[string]*FuncContract{}, Immut: map[string]bool{}, Closed: map[string][]string{},
-		ClosedIfaces: map[string]bool{}, FieldInvs: map[string]Clause{}, Inline: map[string]bool{}, SortAliases: map[string]SortAlias{}, Tracks: map[string]string{}, Monitors: map[string]*MonitorDecl{}}
+		ClosedIfaces: map[string]bool{}, FieldInvs: map[string]Clause{}, Inline: map[string]bool{}, SortAliases: map[string]SortAlias{}, Tracks: map[string]string{}, Monitors: map[string]*MonitorDecl{}, NeverSent: map[string]bool{}}
 }
 
 // loadSpecDir loads *.spec files (trusted / prelude) from a directory, in name order.
